@@ -25,6 +25,7 @@ EXPLANATION = (
     "visible representative instead of being dropped when it sits inside a collapsed inner container. (R8) containment is decided by the parent relation: no function that receives the flat graph takes an identifier apart or compares identifiers by prefix (only the separator-terminated form '<ancestor>/' is accepted), and is_descendant_of returns True only after a parent-chain element compared equal to the ancestor while climbing. R1 also covers the values an edge carries: an endpoint resolver never receives one picked element of the edge's value list (every value is resolved on its own). R4 also requires the name -> id lookup used to translate a nested graph's edges to be built per container (names are unique per graph only)."
     " R8 also requires that 'consumed outside its container' ranges over the whole flat graph, a consumer counting unless is_descendant_of places it inside the container (not only the container's siblings)."
     " R3 also requires that the depth-to-expansion mapping consumes one unit of depth per nesting level; R6 that every node id a scope function returns as an edge endpoint was itself tested for visibility."
+    ' R8 also requires that a visible consumer is dropped from the parameter-to-consumer map only in favour of one of its own descendants (is_descendant_of(<other>, <this>)), never by comparing nesting depths across unrelated branches.'
 )
 NOT_DECIDED = "Faithfulness of the drawn graph as a relation between computed data (that each dependency is drawn and nothing else); layout, styling and the JavaScript front end."
 
